@@ -1,5 +1,6 @@
 import FluentVerif.Client.TcpLemmas
 import FluentVerif.Props.C12
+import FluentVerif.Proto.DecodeComplete2
 /-! # C04 — ack: Send succeeds exactly when the peer acknowledges this message's chunk
 
 The response the peer delivers before silence / EOF / the deadline enters the model as the
@@ -81,5 +82,18 @@ example : (send { requireAck := true } { session := some (0, true), conns := [{ 
     [0x81, 0xa3, 0x61, 0x63, 0x6b, 0xa1, 0x78]).2 = .ok := by decide
 example : (send { requireAck := true } { session := some (0, true), conns := [{ closeErr := false }] } (some [0xc0]) [0x79] .none
     [0x81, 0xa3, 0x61, 0x63, 0x6b, 0xa1, 0x78]).2 = .err := by decide
+
+/-- **a conforming matching ack yields success, in whatever legal msgpack form it arrives**: if the
+specification parser finds, at the front of what the peer sent, a map with non-empty string keys whose
+`ack` entries are strings (any header class, entries in any order, further entries of any shape)
+and the last `ack` entry is this chunk, and every byte of the message was accepted, then `Send`
+succeeds -/
+theorem C04_conforming_ack (cfg : Cfg) (s : St) (id : Nat) (e chunk : Bytes) (f : WFault) (resp rest : Bytes)
+    (kvs : Objs) (hs : s.session = some (id, true)) (hack : cfg.requireAck = true)
+    (hw : (doWrite e f).2 = .ok) (hp : parse resp = some (.map kvs, rest)) (hk : KVsOK ackOK kvs)
+    (hc : (foldKVs ackApply kvs {}).ack = chunk) :
+    (send cfg s (some e) chunk f resp).2 = .ok :=
+  (C04_success_iff cfg s id e chunk f resp hs hack).2
+    ⟨hw, _, _, Ack.unmarshal_complete .stream {} hp hk, hc⟩
 
 end FV.Tcp
